@@ -707,8 +707,9 @@ def g_ct(rng, tier):
         if rng.random() < 0.2:
             f = " ".join(f)
     elif r < 0.7:
-        n = rng.choice([10, 50, 200, 1000, 2000] if tier == "thorough" else [10, 50, 200])
-        f = rng.choice(["(" * n + "a" + ")" * n, "-" * n + "a", "+".join(["a"] * n), "*".join(["b"] * n), "exp(" * n + "1" + ")" * n, "(" * n, ")" * n, "a" + "+(" * n])
+        n = rng.choice([10, 50, 200, 800, 4000] if tier == "thorough" else [10, 50, 200])
+        f = rng.choice(["(" * (n // 2) + "a" + ")" * (n // 2), "-" * n + "a", "+".join(["a"] * (n // 2)), "*".join(["b"] * (n // 2)), "exp(" * (n // 5) + "1" + ")" * (n // 5),
+                        "(" * n, ")" * n, "a" + "+(" * (n // 2)])[:4096]          # nesting as deep as 4 KiB allow
     else:
         f = pick(rng, tier, FORMULAS, RD["formula_chars"] + ["x", "1", "exp(", "log("])
     return "ct.parse %s" % hx(f)
